@@ -50,22 +50,43 @@ def small_family(ctx, tag, max_eqs, sample, rich):
     return fns, princ
 
 
+RES = ("<res>",)       # the version with an informative result annotation
+
+
+def principals(ctx, fns, tag):
+    """principal types by TLC (FoInferCases): constraints from the abstract syntax, checked against the generator's own derivation"""
+    sd = ctx.spec_dir()
+    specs = [f.spec() for f in fns]
+    for sp in specs:
+        if "eqs" not in sp:            # abstract syntax only: no second entry
+            sp["eqs"], sp["params"], sp["res"] = [], [], ["unit"]
+            sp["single"] = True
+    fin, fout = "inf_fns%s.ndjson" % tag, "inf_principal%s.ndjson" % tag
+    core.write_ndjson(os.path.join(sd, fin), specs)
+    slicecheck.write_cfg(ctx, "FoInferCases_run%s.cfg" % tag, "CONSTANTS\n  FnFile = \"%s\"\n  OutFile = \"%s\"\nINIT Init\nNEXT Next\n" % (fin, fout))
+    ctx.tlc("FoInferCases", "FoInferCases_run%s.cfg" % tag, workers=1, timeout=3000, heap_gb=6)
+    princ = core.read_ndjson(os.path.join(sd, fout))
+    if len(princ) != len(fns):
+        raise Infra("principal types missing")
+    dis = [p["name"] for p in princ if not p["agree"]]
+    if dis:
+        raise Infra("generator and FoInferGen disagree about the constraints of %s" % dis[:5])
+    return princ
+
+
+def vtext(f, p, s):
+    return f.text({} if s == RES else {q: p["annot"][f.params.index(q)] for q in s})
+
+
 def run_fns(ctx, fns, princ=None, tag=""):
     sd = ctx.spec_dir()
     if princ is None:
-        specs = [f.spec() for f in fns]
-        for sp in specs:
-            if "eqs" not in sp:            # abstract syntax only: no second entry
-                sp["eqs"], sp["params"], sp["res"] = [], [], ["unit"]
-                sp["single"] = True
-        core.write_ndjson(os.path.join(sd, "inf_fns.ndjson"), specs)
-        ctx.tlc("FoInferCases", "FoInferCases.cfg", workers=1, timeout=3000, heap_gb=6)
-        princ = core.read_ndjson(os.path.join(sd, "inf_principal.ndjson"))
-        if len(princ) != len(fns):
-            raise Infra("principal types missing")
-        dis = [p["name"] for p in princ if not p["agree"]]
-        if dis:
-            raise Infra("generator and FoInferGen disagree about the constraints of %s" % dis[:5])
+        princ = principals(ctx, fns, tag)
+    # informative result annotations: the principal result type with its variables instantiated, written after the parameters
+    rfns = [infgen.RannFn(f, p["rinst"]["t"], p["rinst"]["text"]) for f, p in zip(fns, princ)
+            if p["ok"] and p.get("rinst", {}).get("has") and not getattr(f, "selfcalls", 0) and not getattr(f, "deps", None)]
+    rprinc = {f.name: p for f, p in zip(rfns, principals(ctx, rfns, tag + "_r"))} if rfns else {}
+    rfns = {f.name: f for f in rfns}
     ctx.build("fc")
     fcutil.build_goast(ctx)
     wd = ctx.mkdir("c02" + tag)
@@ -84,6 +105,8 @@ def run_fns(ctx, fns, princ=None, tag=""):
             subsets = [()] + [tuple(ground)] + ctx.rng.sample(subsets[1:-1], 6)
         for s in subsets:
             versions.append((f, p, s))
+        if f.name in rfns and rprinc[f.name]["ok"]:
+            versions.append((rfns[f.name], rprinc[f.name], RES))
     # group the versions into files: version k of every function in file k (functions keep their names)
     byk = {}
     count = {}
@@ -99,7 +122,7 @@ def run_fns(ctx, fns, princ=None, tag=""):
         def attempt(its, tag):
             path = os.path.join(wd, "v%d_%s.fo" % (k, tag))
             with open(path, "w") as fh:
-                fh.write(infgen.PRELUDE + "".join(f.text({q: p["annot"][f.params.index(q)] for q in s}) for f, p, s in its))
+                fh.write(infgen.PRELUDE + "".join(vtext(f, p, s) for f, p, s in its))
             gen = fcutil.gen_name(path)
             if os.path.exists(gen):
                 os.remove(gen)
@@ -139,8 +162,8 @@ def run_fns(ctx, fns, princ=None, tag=""):
     for f, p, s in versions:
         st, sig, text, gen = results.get((f.name, s), ("missing", None, None, None))
         base = results.get((f.name, ()), (None, None, None, None))
-        line = {"fn": f.spec(), "name": f.name, "annotated": list(s), "status": st, "ntparams": -1, "gparams": [], "gres": "", "samecode": False,
-                "src": f.text({q: p["annot"][f.params.index(q)] for q in s})}
+        line = {"fn": f.spec(), "name": f.name, "annotated": list(s), "princ": p, "status": st, "ntparams": -1, "gparams": [], "gres": "", "samecode": False,
+                "src": vtext(f, p, s)}
         if st == "ok" and sig:
             line["ntparams"] = len(sig["tparams"])
             line["gparams"] = [nospace(x) for x in sig["params"]]
@@ -239,7 +262,7 @@ def report(ctx, lines, bad, princ):
     pm = {p["name"]: p for p in princ}
     for b in bad[:20]:
         l = lines[b - 1]
-        p = pm[l["name"]]
+        p = l.get("princ") or pm[l["name"]]
         ctx.violation("function %s (annotated: %s): status %s; emitted signature [%d type params] (%s) %s, same code as un-annotated: %s; principal: [%d] (%s) %s\n%s" % (
             l["name"], l["annotated"], l["status"], l["ntparams"], ", ".join(l["gparams"]), l["gres"], l["samecode"], p["ntparams"], ", ".join(p["params"]), p["res"], l["src"]),
             {"fn": l["fn"], "source": l["src"], "recorded": {k: l[k] for k in ("status", "ntparams", "gparams", "gres", "samecode")}, "principal": p})
